@@ -423,6 +423,29 @@ fn main() {
             }
         }
     });
+    run("S32 side effects: after-code put on a function's final `end` (never emitted) - which index space does its record use? (C23)", || {
+        use wirm::ir::module::side_effects::{InjectType, Injection};
+        // local functions $a (FunctionID 0) and $b (FunctionID 1: `nop; end`); an imported function is added (both move up by one);
+        // `call $a` is put AFTER the final end of $b (instruction 1) and, for comparison, BEFORE it
+        let w = wat::parse_str(r#"(module (func $a) (func $b nop))"#).unwrap();
+        let mut m = Module::parse(&w, false).unwrap();
+        let ty = m.types.add_func_type(&[], &[], None);
+        m.add_import_func("env".into(), "imp".into(), ty);
+        {
+            let mut fm = m.functions.get_fn_modifier(FunctionID(1)).unwrap();
+            fm.after_at(wirm::ir::types::Location::Module { func_idx: FunctionID(1), instr_idx: 1 });
+            fm.call(FunctionID(0));
+            fm.finish_instr();
+            fm.before_at(wirm::ir::types::Location::Module { func_idx: FunctionID(1), instr_idx: 1 });
+            fm.call(FunctionID(0));
+            fm.finish_instr();
+        }
+        let se = m.pull_side_effects();
+        for r in se.get(&InjectType::Probe).map(|v| v.as_slice()).unwrap_or(&[]) {
+            if let Injection::FuncLocProbe { target_fid, target_opcode_idx, mode, body, .. } = r { println!("FuncLocProbe target_fid {} at {} mode {:?} body {:?}", target_fid, target_opcode_idx, mode, body); }
+        }
+        show("S32", &m.encode());
+    });
     run("S31 a module with a continuation type (stack-switching proposal): parse, then encode (C01)", || {
         let w = wat::parse_str(r#"(module (type $ft (func)) (type $ct (cont $ft)))"#).unwrap();
         println!("input validates (all features): {}", wasmparser::Validator::new_with_features(wasmparser::WasmFeatures::all()).validate_all(&w).is_ok());
